@@ -130,6 +130,7 @@ const (
 	LexerRuneEscaped
 	LexerStrHexEscape  // reading the digits of \xHH, \uHHHH, \UHHHHHHHH in a string
 	LexerRuneHexEscape // the same in a rune literal
+	LexerMinusDot      // saw "-." where a negative number may start: -.5 or the symbol - ?
 )
 
 type Lexer struct {
@@ -760,6 +761,11 @@ top:
 			} else {
 				//Q("atom was not matched by FloatRegex: '%s'", atom)
 			}
+			if r == '.' {
+				// -.5 is a number, -.a is not: the next rune decides
+				lexer.state = LexerMinusDot
+				return nil
+			}
 		}
 
 		if BuiltinOpRegex.MatchString(atom) {
@@ -777,6 +783,18 @@ top:
 		//Q("1 rune atom in builtin op '%s', first='%s'", atom, first)
 		lexer.AppendToken(lexer.Token(TokenSymbol, first))
 		goto top // still have to parse r in normal
+
+	case LexerMinusDot:
+		lexer.state = LexerNormal
+		if '0' <= r && r <= '9' {
+			// a negative fraction without integer part
+			lexer.buffer.WriteString("-.")
+			goto writeRuneToBuffer
+		}
+		// the minus stands alone; the dot starts the next atom
+		lexer.AppendToken(lexer.Token(TokenSymbol, "-"))
+		lexer.buffer.WriteRune('.')
+		goto top // still have to lex r in normal
 
 	case LexerNormal:
 		switch r {
